@@ -2,6 +2,7 @@ package engine
 
 import (
 	"fmt"
+	"os"
 	"runtime/debug"
 	"go/constant"
 	"go/token"
@@ -230,7 +231,9 @@ func (x *Exec) callSSA(caller *frame, pos token.Pos, fn *ssa.Function, args []Va
 			x.curFrame = fr
 			r := ext(fr, args)
 			x.curFrame = saved
-			return r
+			if _, ft := r.(fallthroughVal); !ft {
+				return r
+			}
 		}
 		if fn.Blocks == nil {
 			if x.lenient > 0 {
@@ -283,7 +286,11 @@ func (fr *frame) runFrame() {
 		if _, isT := r.(targetPanic); !isT {
 			if _, isEnd := r.(pathEnd); !isEnd {
 				fr.x.curFrame = fr
-				r = pathEnd{kind: "internal", msg: fmt.Sprintf("%v%s\n%s", r, fr.x.whereAmI(), debug.Stack())}
+				st := ""
+				if os.Getenv("GOSYM_DEBUG") != "" {
+					st = "\n" + string(debug.Stack())
+				}
+				r = pathEnd{kind: "internal", msg: fmt.Sprintf("%v%s%s", r, fr.x.whereAmI(), st)}
 			}
 			panic(r) // pathEnd or an engine bug: do not run target defers
 		}
@@ -339,6 +346,9 @@ func (fr *frame) runFrame() {
 		}
 	}
 }
+
+// fallthroughVal is returned by an intrinsic that declines: the real body is interpreted instead.
+type fallthroughVal struct{}
 
 type continuation int
 
